@@ -131,10 +131,11 @@ def bodies(ver):
     yield "empty-body", envelope(ver, ""), dict(kind="nofault-tree")
 
 
-def multipart(xml):
+def multipart(xml, spelling="multipart/related"):
     b = "MIMEBOUNDARY123"
     body = ("--%s\r\nContent-Type: text/xml; charset=utf-8\r\nContent-ID: <root>\r\n\r\n%s\r\n--%s--\r\n" % (b, xml, b))
-    return 'multipart/related; boundary="%s"; type="text/xml"; start="<root>"' % b, body.encode()
+    # media types are case-insensitive (RFC 2045): servers do send Multipart/Related
+    return '%s; boundary="%s"; type="text/xml"; start="<root>"' % (spelling, b), body.encode()
 
 
 class Script:
@@ -276,6 +277,8 @@ def run(ctx):
                     cells.append((ver, port, status, bname, content, spec, ct, False))
                 if bname in ("payload", "non-xml", "truncated", "empty") or bname.startswith("fault11:code+string") or bname.startswith("fault12:r1:d2"):
                     cells.append((ver, port, status, bname, content, spec, "multipart", True))
+                    if bname != "empty":
+                        cells.append((ver, port, status, bname, content, spec, "multipart:" + ("Multipart/Related", "MULTIPART/RELATED")[len(cells) % 2], True))
     # model inputs (strict and lenient)
     runs = []
     for cell in cells:
@@ -291,7 +294,7 @@ def run(ctx):
     for ((ver, port, status, bname, content, spec, ct, mp), strict), klass, mo in zip(runs, meta, mout):
         Script.status = status
         if mp:
-            Script.ctype, Script.content = multipart(content)
+            Script.ctype, Script.content = multipart(content, *(ct.split(":", 1)[1:]))
             if not content:
                 Script.content = b""
         else:
@@ -341,8 +344,8 @@ def replay(ctx, payload):
     clients = {True: make_client(True), False: make_client(False)}
     port = "p11" if case["version"] == "1.1" else "p12"
     Script.status = case["status"]
-    if case["content_type"] == "multipart":
-        Script.ctype, Script.content = multipart(case["content"])
+    if case["content_type"].startswith("multipart"):
+        Script.ctype, Script.content = multipart(case["content"], *(case["content_type"].split(":", 1)[1:]))
     else:
         Script.ctype, Script.content = case["content_type"], case["content"].encode()
     # lenient first, as in the run
